@@ -453,8 +453,9 @@ func (c *collector) Send(r *openfgav1.StreamedListObjectsResponse) error {
 // one attempt of a case: the output line and whether the AuthZEN side agrees with the native side
 // according to the executor's own quick comparison (only used to decide about a retry).
 type attempt struct {
-	out   string
-	agree bool
+	out    string
+	agree  bool
+	native string // the native observations of this repetition (ActionSearch only): instability detector
 }
 
 func runEval(storeID string, t *fga.Toks) attempt {
@@ -739,8 +740,28 @@ func runActionSearch(storeID string, m *fga.Model, t *fga.Toks) attempt {
 		relsOut = "unknown-type"
 	}
 	bat := nativeBatch(storeID, maps)
+	// the three native observations of one question (ActionSearch's own BatchCheck, this BatchCheck, the single
+	// Checks) must tell one story before anything is concluded: a Check whose answer varies from call to call
+	// (findings F2 / V2-E) makes them differ without any fault of the AuthZEN mapping — the executor then repeats
+	decisive := func(x string) string {
+		if x == "T" {
+			return "T"
+		}
+		return "F"
+	}
+	batAgrees := strings.HasPrefix(bat, "E")
+	if !batAgrees {
+		var a, b []string
+		for _, x := range chk {
+			a = append(a, decisive(x))
+		}
+		for _, x := range splitListTok(bat) {
+			b = append(b, decisive(x))
+		}
+		batAgrees = strings.Join(a, ",") == strings.Join(b, ",")
+	}
 	return attempt{out: fmt.Sprintf("az=%s rels=%s chk=%s bat=%s map=%s,%s,%s", az, relsOut, list(chk), bat, esc(s.typ+":"+s.id), esc(r.typ+":"+r.id), ctxString(merged)),
-		agree: az == list(allowed) || strings.HasPrefix(az, "E")}
+		agree: (az == list(allowed) || strings.HasPrefix(az, "E")) && batAgrees, native: list(chk) + "|" + bat}
 }
 
 func exec(line string, st *hx.Stats) string {
@@ -764,6 +785,7 @@ func exec(line string, st *hx.Stats) string {
 	}
 	pos := t.I
 	var first attempt
+	natives := map[string]bool{}
 	for try := 0; try < 6; try++ {
 		t.I = pos
 		var a attempt
@@ -784,6 +806,9 @@ func exec(line string, st *hx.Stats) string {
 		if try == 0 {
 			first = a
 		}
+		if a.native != "" {
+			natives[a.native] = true
+		}
 		if a.agree {
 			if try > 0 {
 				st.Inc("flaky-native")
@@ -791,6 +816,11 @@ func exec(line string, st *hx.Stats) string {
 			}
 			return a.out
 		}
+	}
+	if len(natives) > 1 {
+		// the native answers themselves changed from one repetition to the next: nothing can be concluded
+		st.Inc("flaky-native")
+		return first.out + " flaky"
 	}
 	return first.out
 }
@@ -1046,3 +1076,11 @@ func gen(r *hx.Rand, n int, tier string, emit func(string), st *hx.Stats) {
 }
 
 func main() { hx.Main(hx.Harness{Gen: gen, Exec: exec}) }
+
+// splitListTok is the inverse of list().
+func splitListTok(s string) []string {
+	if s == "[]" || s == "" {
+		return nil
+	}
+	return strings.Split(s, ",")
+}
